@@ -1228,6 +1228,9 @@ type typeParserParamNode struct {
 func (t *typeParser) parse() typeParserResult {
 	// parse the AST
 	ast, ok := t.parseClassNode()
+	if ok {
+		ok = ast.wellFormed(true)
+	}
 	if !ok {
 		// treat this is a custom type
 		return typeParserResult{
@@ -1306,6 +1309,43 @@ func (t *typeParser) parse() typeParserResult {
 			reversed:    []bool{reversed},
 		}
 	}
+}
+
+// wellFormed reports whether the class and its parameters have the parameters that
+// parse and asTypeInfo rely on: ReversedType, ListType and SetType one, MapType two,
+// CompositeType at least one that is not the collections parameter, and a name for
+// every parameter of ColumnToCollectionType. Anything else is treated as a custom type.
+func (class *typeParserClassNode) wellFormed(top bool) bool {
+	switch {
+	case strings.HasPrefix(class.name, REVERSED_TYPE), strings.HasPrefix(class.name, LIST_TYPE), strings.HasPrefix(class.name, SET_TYPE):
+		if len(class.params) < 1 {
+			return false
+		}
+	case strings.HasPrefix(class.name, MAP_TYPE):
+		if len(class.params) < 2 {
+			return false
+		}
+	case strings.HasPrefix(class.name, COMPOSITE_TYPE) && top:
+		count := len(class.params)
+		if count > 0 && strings.HasPrefix(class.params[count-1].class.name, COLLECTION_TYPE) {
+			count--
+		}
+		if count < 1 {
+			return false
+		}
+	case strings.HasPrefix(class.name, COLLECTION_TYPE):
+		for _, param := range class.params {
+			if param.name == nil {
+				return false
+			}
+		}
+	}
+	for i := range class.params {
+		if !class.params[i].class.wellFormed(false) {
+			return false
+		}
+	}
+	return true
 }
 
 func (class *typeParserClassNode) asTypeInfo() TypeInfo {
